@@ -35,6 +35,7 @@
 //     is called with (`root[ctx]`), so the goroutines of runActorCommandWithConsumer are told apart by consumer;
 //   - locks: must-held analysis per function (Lock adds, explicit Unlock removes, deferred Unlock keeps), a
 //     function starts with the intersection of the sets at its call sites;
+//   - channel hand-over: see sent.go (`sentThenWritten` facts);
 //   - join: the root's end signal is `wg.Done()` (or the first send / close on a channel) in its entry function
 //     or a closure it defers; the join is `wg.Wait()` / `<-ch` on the same variable in the function owning that
 //     variable; `pre` = cannot be reached from the fork, `post` = every path from the fork passes the join
@@ -183,7 +184,7 @@ func main() {
 	for _, x := range a.Accesses {
 		locs[x.Loc] = true
 	}
-	fmt.Printf("roots=%d accesses=%d locations=%d written=%d rows=%d notes=%d\n", len(a.Roots), len(a.Accesses), len(locs), len(enc.LocNames), enc.Rows, len(a.Notes))
+	fmt.Printf("roots=%d accesses=%d locations=%d written=%d rows=%d sentThenWritten=%d notes=%d\n", len(a.Roots), len(a.Accesses), len(locs), len(enc.LocNames), enc.Rows, len(a.SentThenWritten), len(a.Notes))
 }
 
 func sortedKeys(m map[string]bool) []string {
